@@ -2,7 +2,7 @@
 # regression over all seeded changes for the given VERIF_SEED values; prints only misses and a count per seed
 cd "$(dirname "$0")/.." || exit 2
 for seed in "$@"; do
-  out=$(ls -d seeded/*/ | VERIF_SEED=$seed xargs /venv/bin/python tools/seeded.py 2>&1)
+  out=$(ls -d seeded/*/ | VERIF_SEED=$seed xargs /venv/bin/python tools/seeded.py --fast 2>&1)
   echo "seed=$seed caught=$(echo "$out" | grep -c '^CAUGHT') missed=$(echo "$out" | grep -c '^MISSED')"
   echo "$out" | grep -A4 '^MISSED' | cut -c1-200
 done
